@@ -12,6 +12,8 @@ pub mod raster3;
 pub mod stats;
 pub mod utility;
 pub mod sensor;
+#[cfg(feature = "verif")]
+pub mod verif_hooks;
 
 pub type Result<T> = std::result::Result<T, Box<dyn Error>>;
 
